@@ -218,7 +218,13 @@ func (m *machine) fromUnsafePointer(dst types.Type, x value) value {
 	if _, ok := m.allocType[p]; !ok {
 		return p
 	}
-	m.unsupported("unsafe cast: no enclosing value of type %s for pointer of type %s", want, m.allocType[p])
+	// The pointer belongs to an allocation of a different struct type (e.g. a radix node
+	// header cast to a node kind other than the one it was allocated as). The real code
+	// never does this on a well-formed tree: the access that follows would read or write at
+	// the wrong offset. Reported as a memory-safety violation; the check confirms it by
+	// replaying the inputs against the real build (any failure there counts) and reports an
+	// engine mismatch otherwise.
+	m.violation(nil, "memory-safety.unsafe-cast", fmt.Sprintf("unsafe cast: pointer into a value of type %s converted to *%s", m.allocType[p], want), nil)
 	return nil
 }
 
